@@ -19,24 +19,36 @@ open HcipyVerif.FieldProg
 
 /-- **Both routes yield the same values** — after every statement (including the same exception
 at the same statement) and in the final read-out of every variable, aliases included — for every
-program, every grid table, unbounded sizes.  `ProgAgree` only constrains `shaped` nodes (their
-operand must be the same kind of object under both routes, see `shaped_needs_agreeing_tags`);
-for programs without `shaped` it is vacuous (`backends_same_values_noShaped`). -/
-theorem backends_same_values (gs : Grids) (p : List Stmt) (h : ProgAgree gs {} {} p) :
+program, every grid table, unbounded sizes.  The hypothesis is the *decidable* check `agree?` (run by
+the driver for every generated program, reported as `agree=`): no `shaped` node is applied to an object
+that the two routes tag differently.  It is `true` for every program without `shaped`
+(`backends_same_values_noShaped`); where it is `false` the routes really differ
+(`shaped_needs_agreeing_tags`, `agree_detects_0d_shaped`) — the harness generates such programs and
+logs them as accepted divergence after checking that the real code diverges exactly as predicted. -/
+theorem backends_same_values (gs : Grids) (p : List Stmt) (h : agree? gs p = true) :
     traceData ((runO gs {} p).1, (runO gs {} p).2.map OState.dump) =
     traceData ((runN gs {} p).1, (runN gs {} p).2.map NState.dump) :=
-  run_same_values gs p {} {} rel_init h
+  run_same_values gs p {} {} rel_init (progAgreeB_sound gs p {} {} h)
 
-/-- the hypothesis of `backends_same_values` is satisfiable by a program that uses `shaped` -/
-example : ProgAgree [(0, some [2, 2])] {} {}
-    [.assign 0 (.shaped (.field ⟨[4], .real, [⟨1, 0⟩, ⟨2, 0⟩, ⟨3, 0⟩, ⟨4, 0⟩]⟩ 0))] :=
-  ⟨⟨trivial, rfl⟩, fun _ _ _ _ => trivial⟩
+/-- the hypothesis of `backends_same_values` is satisfied by a program that uses `shaped` -/
+example : agree? [(0, some [2, 2])]
+    [.assign 0 (.shaped (.field ⟨[4], .real, [⟨1, 0⟩, ⟨2, 0⟩, ⟨3, 0⟩, ⟨4, 0⟩]⟩ 0))] = true := by decide
+
+/-- the semantic form (any stores related by `Rel`, hypothesis `ProgAgree`) is
+`FieldProg.run_same_values`; `ProgAgree` is implied by the decidable check -/
+theorem agree_implies_progAgree (gs : Grids) (p : List Stmt) (h : agree? gs p = true) : ProgAgree gs {} {} p :=
+  progAgreeB_sound gs p {} {} h
+
+/-- the check rejects the program on which the routes differ (`shaped` of a full reduction) -/
+theorem agree_detects_0d_shaped :
+    agree? [(0, some [1])] [Stmt.assign 0 (.shaped (.red .max .all (.field ⟨[1], .real, [⟨3, 0⟩]⟩ 0)))] = false := by
+  decide
 
 /-- Unconditional form: every program that does not use `.shaped`. -/
 theorem backends_same_values_noShaped (gs : Grids) (p : List Stmt) (h : ∀ st ∈ p, StmtNoShaped st) :
     traceData ((runO gs {} p).1, (runO gs {} p).2.map OState.dump) =
     traceData ((runN gs {} p).1, (runN gs {} p).2.map NState.dump) :=
-  backends_same_values gs p (progAgree_of_noShaped gs p h {} {})
+  run_same_values gs p {} {} rel_init (progAgree_of_noShaped gs p h {} {})
 
 /-- Expression level, any two wrapping policies and any stores that read the same values. -/
 theorem expression_same_values (P Q : Policy) (gs : Grids) (lo ln : Nat → Except Err Val)
@@ -70,20 +82,46 @@ theorem elementwise_keeps_grid_new (ts : List Tag) (a : Arr) (g : Nat) (h : left
     | cons _ _ => rfl
   simp [newPolicy, h, hnd]
 
-/-- **Elementwise results carry the grid of the Field operand** — as a statement about evaluated
-binary expressions under both routes at once: if the operands are the same kinds of object under
-both routes and one of them is a Field, then (unless the result is 0-d) both routes return a Field
-on the grid of the leftmost Field operand. -/
-theorem elementwise_keeps_grid (gs : Grids) (lo ln : Nat → Except Err Val) (op : BinOp) (l r : Expr)
-    (al ar : Arr) (tl tr : Tag) (g : Nat)
-    (hlo : eval oldPolicy gs lo l = .ok (al, tl)) (hro : eval oldPolicy gs lo r = .ok (ar, tr))
-    (hln : eval newPolicy gs ln l = .ok (al, tl)) (hrn : eval newPolicy gs ln r = .ok (ar, tr))
-    (hg : leftGrid [tl, tr] = some g) (a : Arr) (hk : Prim.binop op al ar = .ok a) (hnd : a.shape ≠ []) :
-    eval oldPolicy gs lo (.bin op l r) = .ok (a, .field g) ∧
+/-- **Elementwise results carry the grid of the Field operand (subclass route, evaluated)**: whatever
+the operands evaluate to under this route, if one of them is a Field the result is a Field on the grid
+of the leftmost one — 0-d results included. -/
+theorem elementwise_keeps_grid_route_old (gs : Grids) (lo : Nat → Except Err Val) (op : BinOp) (l r : Expr)
+    (vl vr : Val) (g : Nat)
+    (hl : eval oldPolicy gs lo l = .ok vl) (hr : eval oldPolicy gs lo r = .ok vr)
+    (hg : leftGrid [vl.2, vr.2] = some g) (a : Arr) (hk : Prim.binop op vl.1 vr.1 = .ok a) :
+    eval oldPolicy gs lo (.bin op l r) = .ok (a, .field g) := by
+  simp [eval, hl, hr, hk, Except.map, elementwise_keeps_grid_old _ _ _ hg]
+
+/-- the same for the wrapper route, unless the raw result is 0-d -/
+theorem elementwise_keeps_grid_route_new (gs : Grids) (ln : Nat → Except Err Val) (op : BinOp) (l r : Expr)
+    (vl vr : Val) (g : Nat)
+    (hl : eval newPolicy gs ln l = .ok vl) (hr : eval newPolicy gs ln r = .ok vr)
+    (hg : leftGrid [vl.2, vr.2] = some g) (a : Arr) (hk : Prim.binop op vl.1 vr.1 = .ok a) (hnd : a.shape ≠ []) :
     eval newPolicy gs ln (.bin op l r) = .ok (a, .field g) := by
-  constructor
-  · simp [eval, hlo, hro, hk, Except.map, elementwise_keeps_grid_old _ _ _ hg]
-  · simp [eval, hln, hrn, hk, Except.map, elementwise_keeps_grid_new _ _ _ hg hnd]
+  simp [eval, hl, hr, hk, Except.map, elementwise_keeps_grid_new _ _ _ hg hnd]
+
+/-- both routes at once; the operands may be *different kinds of object* under the two routes (a 0-d
+Field vs a scalar, a bare array vs a Field after `np.where`) — each route attaches the grid of its own
+leftmost Field operand -/
+theorem elementwise_keeps_grid (gs : Grids) (lo ln : Nat → Except Err Val) (op : BinOp) (l r : Expr)
+    (al ar : Arr) (tlo tro tln trn : Tag) (g g' : Nat)
+    (hlo : eval oldPolicy gs lo l = .ok (al, tlo)) (hro : eval oldPolicy gs lo r = .ok (ar, tro))
+    (hln : eval newPolicy gs ln l = .ok (al, tln)) (hrn : eval newPolicy gs ln r = .ok (ar, trn))
+    (hgo : leftGrid [tlo, tro] = some g) (hgn : leftGrid [tln, trn] = some g')
+    (a : Arr) (hk : Prim.binop op al ar = .ok a) (hnd : a.shape ≠ []) :
+    eval oldPolicy gs lo (.bin op l r) = .ok (a, .field g) ∧
+    eval newPolicy gs ln (.bin op l r) = .ok (a, .field g') :=
+  ⟨elementwise_keeps_grid_route_old gs lo op l r _ _ g hlo hro hgo a hk,
+   elementwise_keeps_grid_route_new gs ln op l r _ _ g' hln hrn hgn a hk hnd⟩
+
+/-- satisfiable: `Field([1, 2], g0) + 1.0` -/
+example :
+    eval oldPolicy [] (fun _ => .error .unsupported) (.bin .add (.field ⟨[2], .real, [⟨1, 0⟩, ⟨2, 0⟩]⟩ 0) (.scal ⟨1, 0⟩ .real))
+      = .ok (⟨[2], .real, [⟨2, 0⟩, ⟨3, 0⟩]⟩, .field 0) ∧
+    eval newPolicy [] (fun _ => .error .unsupported) (.bin .add (.field ⟨[2], .real, [⟨1, 0⟩, ⟨2, 0⟩]⟩ 0) (.scal ⟨1, 0⟩ .real))
+      = .ok (⟨[2], .real, [⟨2, 0⟩, ⟨3, 0⟩]⟩, .field 0) :=
+  elementwise_keeps_grid [] _ _ .add _ _ _ _ (.field 0) .scalar (.field 0) .scalar 0 0 rfl rfl rfl rfl rfl rfl _
+    (by decide +kernel) (by decide)
 
 /-- the same for unary ufuncs -/
 theorem elementwise_keeps_grid_unary (gs : Grids) (lo ln : Nat → Except Err Val) (u : UnOp) (e : Expr)
@@ -96,6 +134,30 @@ theorem elementwise_keeps_grid_unary (gs : Grids) (lo ln : Nat → Except Err Va
   constructor
   · cases u <;> simp [eval, ho, hk, Except.map, unTag, elementwise_keeps_grid_old _ _ _ hg]
   · cases u <;> simp [eval, hn, hk, Except.map, unTag, elementwise_keeps_grid_new _ _ _ hg hnd]
+
+/-- satisfiable: `-Field([1, 2], g0)` -/
+example :
+    eval oldPolicy [] (fun _ => .error .unsupported) (.un .neg (.field ⟨[2], .real, [⟨1, 0⟩, ⟨2, 0⟩]⟩ 0))
+      = .ok (⟨[2], .real, [⟨-1, 0⟩, ⟨-2, 0⟩]⟩, .field 0) :=
+  (elementwise_keeps_grid_unary [] _ (fun _ => .error .unsupported) .neg _ _ 0 rfl rfl _ rfl (by decide)).1
+
+/-- **The 0-d divergence, stated**: on a 0-d raw result with a Field operand the subclass route returns
+a 0-d *Field on the grid*, the wrapper route a bare *scalar* — for ufuncs and for reductions alike.  This
+is the one place where "elementwise results stay attached to the same grid" fails between the styles;
+the values are equal (`backends_same_values`).  Accepted divergence (NumPy returns scalars for 0-d
+results; the harness counts the occurrences as `tags old/new:f…/s`). -/
+theorem zero_dim_divergence (ts : List Tag) (a : Arr) (g : Nat) (h : leftGrid ts = some g) (h0 : a.shape = []) :
+    oldPolicy.ufunc ts a = .field g ∧ newPolicy.ufunc ts a = .scalar ∧
+    oldPolicy.reduce (.field g) a = .field g ∧ newPolicy.reduce (.field g) a = .scalar := by
+  simp [oldPolicy, newPolicy, h, h0]
+
+/-- … and its consequence one operation later: `f.sum() * np.array([1, 2])` is a Field under the
+subclass route and a bare ndarray under the wrapper route (same values) -/
+theorem zero_dim_divergence_propagates :
+    let e := Expr.bin .mul (.red .sum .all (.field ⟨[2], .real, [⟨1, 0⟩, ⟨2, 0⟩]⟩ 0)) (.lit ⟨[2], .real, [⟨1, 0⟩, ⟨2, 0⟩]⟩)
+    eval oldPolicy [] (fun _ => .error .unsupported) e = .ok (⟨[2], .real, [⟨3, 0⟩, ⟨6, 0⟩]⟩, .field 0) ∧
+    eval newPolicy [] (fun _ => .error .unsupported) e = .ok (⟨[2], .real, [⟨3, 0⟩, ⟨6, 0⟩]⟩, .plain) := by
+  decide +kernel
 
 /-- **copy and pickle round trips**: under any wrapping policy, `copy(e)` and
 `pickle.loads(pickle.dumps(e))` evaluate to exactly what `e` evaluates to — same values, same
@@ -119,6 +181,15 @@ theorem fnTag_keeps_grid (c : TagClass) (hc : c ≠ .func) (ts : List Tag) (a : 
     fnTag oldPolicy c (.field g :: ts) a = .field g ∧ fnTag newPolicy c (.field g :: ts) a = .field g := by
   cases c <;> simp_all [fnTag, oldPolicy, newPolicy, leftGrid]
 
+/-- for the many-operand classes (ufuncs such as `clip`, hcipy functions such as `field_dot`) the rule is
+"leftmost Field", wherever it stands in the argument list -/
+theorem fnTag_keeps_grid_left (c : TagClass) (hc : c = .ufunc ∨ c = .lib) (ts : List Tag) (a : Arr) (g : Nat)
+    (h : leftGrid ts = some g) (hnd : a.shape ≠ []) :
+    fnTag oldPolicy c ts a = .field g ∧ fnTag newPolicy c ts a = .field g := by
+  rcases hc with rfl | rfl <;> simp_all [fnTag, oldPolicy, newPolicy]
+
+example : leftGrid [.plain, .scalar, .field 3] = some 3 := rfl
+
 /-- `np.where(c, a, b)` is the one modelled operation on which the routes attach *different* kinds
 of object: NumPy does not preserve the subclass (bare ndarray under the subclass route), while the
 wrapper's `__array_function__` wraps the result on the grid of the leftmost Field argument.
@@ -139,6 +210,12 @@ theorem app1_keeps_grid (gs : Grids) (lo ln : Nat → Except Err Val) (f : Prim.
   constructor
   · simp [eval, ho, hk, Except.map, this.1]
   · simp [eval, hn, hk, Except.map, this.2]
+
+/-- satisfiable: `np.cumsum(Field([1, 2], g0))` -/
+example :
+    eval oldPolicy [] (fun _ => .error .unsupported) (.app1 (.cumsum .last) (.field ⟨[2], .real, [⟨1, 0⟩, ⟨2, 0⟩]⟩ 0))
+      = .ok (⟨[2], .real, [⟨1, 0⟩, ⟨3, 0⟩]⟩, .field 0) :=
+  (app1_keeps_grid [] _ (fun _ => .error .unsupported) (.cumsum .last) _ _ 0 rfl rfl _ (by decide +kernel) (by decide)).1
 
 /-- **In-place statements write through (subclass route)** — for *every* in-place statement of
 the model (`x op= e`, `x[i] = e`, `x[..., m] = e`, `x[i] op= e`, `x[..., m] op= e`,
@@ -188,12 +265,16 @@ theorem inplace_writes_through_old (gs : Grids) (so so' : OState) (x : Nat) (u :
 
 /-- **In-place statements write through (wrapper route)**: the same for the wrapper store — every
 variable whose wrapper shares `x`'s buffer reads the updated array (although `x op= e` binds `x` to
-a *new* wrapper), variables on other buffers are unchanged. -/
+a *new* wrapper), variables on other buffers are unchanged; `x` itself reads the updated array and, if it
+was a Field, **still is a Field on its grid** (for `x op= e` the new wrapper takes the grid of the leftmost
+Field among `(x, e)`, which is `x`).  That the real wrapper writes into `self.data` on every in-place path
+is what the differential run ties (`stepN` does so by definition). -/
 theorem inplace_writes_through_new (gs : Grids) (sn sn' : NState) (x : Nat) (u : Prim.Upd) (args : List Expr) (r : Nat × Tag)
     (hx : sn.vars.lookup x = some r) (hstep : stepN gs sn (.update x u args) = .ok sn') :
     ∃ xa vs a, sn.bufs[r.1]? = some xa ∧ evalArgs newPolicy gs sn.look args = .ok vs ∧
       Prim.update u xa (vs.map Prod.fst) = .ok a ∧
-      (∃ t, sn'.look x = .ok (a, t)) ∧
+      sn'.look x = .ok (a, if Upd.rebinds u then iopTagN r.2 ((vs.map Prod.snd).headD .plain) else r.2) ∧
+      (∀ g, r.2 = .field g → sn'.look x = .ok (a, .field g)) ∧
       (∀ h rh, h ≠ x → sn.vars.lookup h = some rh → rh.1 = r.1 → sn'.look h = .ok (a, rh.2)) ∧
       (∀ y ry, sn.vars.lookup y = some ry → ry.1 ≠ r.1 → sn'.look y = sn.look y) := by
   simp only [stepN, hx] at hstep
@@ -213,10 +294,14 @@ theorem inplace_writes_through_new (gs : Grids) (sn sn' : NState) (x : Nat) (u :
         have hlt : r.1 < sn.bufs.length := by
           rcases List.getElem?_eq_some_iff.mp hc with ⟨hlt, _⟩
           exact hlt
-        refine ⟨xa, vs, a, rfl, rfl, hp, ?_, ?_, ?_⟩
+        refine ⟨xa, vs, a, rfl, rfl, hp, ?_, ?_, ?_, ?_⟩
         · cases hr : Upd.rebinds u with
-          | false => exact ⟨r.2, by simp [NState.look, hx, List.getElem?_set_self hlt]⟩
-          | true => exact ⟨iopTagN r.2 ((vs.map Prod.snd).headD .plain), by simp [NState.look, lookup_bind, List.getElem?_set_self hlt]⟩
+          | false => simp [NState.look, hx, List.getElem?_set_self hlt]
+          | true => simp [NState.look, lookup_bind, List.getElem?_set_self hlt]
+        · intro g hg
+          cases hr : Upd.rebinds u with
+          | false => simp [NState.look, hx, hg, List.getElem?_set_self hlt]
+          | true => simp [NState.look, lookup_bind, hg, iopTagN, leftGrid, List.getElem?_set_self hlt]
         · intro h rh hne hh hb
           cases hr : Upd.rebinds u with
           | false => simp [NState.look, hh, hb, List.getElem?_set_self hlt]
